@@ -124,6 +124,10 @@ def scenarios(draw):
     dt = src.choice(S.DATA_TYPES)
     ms = src.choice([None, "exact", "precise", "default", "loose"])
     delta = S.DELTAS[ms or S.DATA_DEFAULT_STRATEGY[dt]]
+    # an explicit --delta replaces the tolerance of the preset (0 is a value like any other)
+    xdelta = src.choice([None, None, None, 0, 0, 3, 9])
+    if xdelta is not None:
+        delta = xdelta
     grouped = src.bool(0.4)
     k = 0
     # nested gene: a small gene inside an intron of a host gene whose reads form two separate piles (5' part spanning
@@ -176,6 +180,8 @@ def scenarios(draw):
                   "--no_model_construction"]
     if ms:
         sc["opts"] += ["--matching_strategy", ms]
+    if xdelta is not None:
+        sc["opts"] += ["--delta", str(xdelta)]
     if grouped:
         sc["opts"] += ["--read_group", "tag:RG"]
     sc["delta"] = delta
